@@ -112,4 +112,23 @@ example :
     let g := run prog (init 7 (.user 3) (fun _ => 2)) [0, 1, 0]
     g.cur = .yara ∧ g.count = 2 := by decide
 
+/-- **Library lifetime** (yr_initialize / yr_finalize): for every interleaving of the users' init/finalize calls, the
+    process-wide resources (TLS keys of the try/catch trampolines, modules, heap) exist exactly while somebody holds a
+    reference, and the reference count equals the number of holders — so no user's finalize can tear the library down
+    under another user's scans. -/
+theorem library_alive_iff_referenced (evs : List LibEv) :
+    ((lrun evs).alive = true ↔ 0 < (lrun evs).count) ∧ (lrun evs).count = (lrun evs).users.length := by
+  have H : LInv (lrun evs) := lrun_inv evs {} ⟨rfl, by simp⟩
+  exact ⟨H.alive, H.cnt⟩
+
+/-- a user that still holds its reference finds the library alive, whatever the others did in between -/
+theorem holder_sees_library_alive (evs : List LibEv) (u : Nat) (h : u ∈ (lrun evs).users) : (lrun evs).alive = true := by
+  have H : LInv (lrun evs) := lrun_inv evs {} ⟨rfl, by simp⟩
+  have : 0 < (lrun evs).users.length := List.length_pos_of_mem h
+  have hc := H.cnt
+  exact H.alive.mpr (by omega)
+
+example : (lrun [.init 0, .init 1, .fin 1]).alive = true ∧ (lrun [.init 0, .init 1, .fin 1, .fin 0]).alive = false ∧
+    (lrun [.init 0, .fin 0, .fin 0]).finErrors = 1 := by decide
+
 end YaraModel.C09
